@@ -282,14 +282,23 @@ def propagateRight (T : Pose Rat) : List (Pose Rat) → List (Pose Rat)
 /-- `lie.se3(p[:3,:3] / sim3_scale(p), p[:3,3])` with the scale given -/
 def normaliseRot (s : Rat) (p : Pose Rat) : Pose Rat := ⟨M3.smul (1 / s) p.rot, p.t⟩
 
-/-- `PosePath3D.transform(T, right_mul, propagate)`; `s` = scale of the resulting rotation blocks
-(used only when `T` is not SE(3)) -/
+/-- divide the rotation block of pose `k` by `cur · step^k` -/
+def normaliseFrom (step : Rat) (cur : Rat) : List (Pose Rat) → List (Pose Rat)
+  | [] => []
+  | p :: r => normaliseRot cur p :: normaliseFrom step (cur * step) r
+
+/-- `PosePath3D.transform(T, right_mul, propagate)`.  When `T` is not SE(3) the code divides every
+resulting rotation block by its own `sim3_scale` (`det^(1/3)`, an external numeric result); for rigid
+input poses and `T` of scale `s` that is `s` (plain left / right multiplication) resp. `s^k` for pose
+`k` of a propagated right-multiplication — the model takes `s` as a parameter. -/
 def applyTransform (T : Pose Rat) (rightMul propagate : Bool) (s : Rat) (poses : List (Pose Rat)) :
     List (Pose Rat) :=
   let raw :=
     if rightMul && !propagate then poses.map (fun p => p.mul T)
     else if rightMul && propagate then propagateRight T poses
     else poses.map (fun p => T.mul p)
-  if isSe3Tol T then raw else raw.map (normaliseRot s)
+  if isSe3Tol T then raw
+  else if rightMul && propagate then normaliseFrom s 1 raw
+  else raw.map (normaliseRot s)
 
 end Evo.TrajPlan
